@@ -41,6 +41,7 @@ func Specs(o Oracle, quick bool) []*Spec {
 	switch o {
 	case C09:
 		// SyncWrites only.
+		add(flushOrderSpec(true)) // first: tiny
 		if quick {
 			add(&Spec{Name: "plain-skiplist-b1", Cfg: dbh.Config{Engine: "skiplist", Buckets: 1, VlogFileSize: tinyVlog, SyncWrites: true},
 				Mode: "plain", Client: plainOps(), Maint: macro, MaxClient: 3, MaxMaint: 3, Depth: 4, RecOpen: true})
@@ -63,6 +64,7 @@ func Specs(o Oracle, quick bool) []*Spec {
 				Client: []string{"t:x=s", "t:x=h,y=h", "t:x=h"}, Maint: []string{"rf"}, MaxClient: 3, MaxMaint: 1, Depth: 3})
 		}
 	case C10:
+		add(flushOrderSpec(false)) // first: tiny
 		if quick {
 			add(&Spec{Name: "plain-skiplist-b1-nosync", Cfg: dbh.Config{Engine: "skiplist", Buckets: 1, VlogFileSize: tinyVlog},
 				Mode: "plain", Client: plainOps(), Maint: macro, MaxClient: 3, MaxMaint: 3, Depth: 4, RecOpen: true})
@@ -141,6 +143,17 @@ func ingestRewriteSpec(quick bool) *Spec {
 	return s
 }
 
+// flushOrderSpec: two sealed memtables wait for their flush; every flush transition the code
+// under test offers is taken and crashed at every point. The unchanged tree runs one flush
+// worker, so the only transition is "flush" (oldest first); if the code under test runs several
+// workers the harness also offers "flush:1" (the newer memtable's flush completes first), which
+// is where a WAL checkpoint that assumes seal order loses the older, unflushed segment.
+func flushOrderSpec(sync bool) *Spec {
+	return &Spec{Name: fmt.Sprintf("plain-flush-order-sync=%v", sync), Cfg: dbh.Config{Engine: "skiplist", Buckets: 1, VlogFileSize: tinyVlog, SyncWrites: sync},
+		Mode: "plain", Prefix: []string{"s:a", "rotate", "s:b", "rotate"}, Client: []string{"s:a"}, Maint: []string{"rotate", "flush"},
+		MaxClient: 3, MaxMaint: 4, Depth: 2} // the per-path budgets include the prefix (2 writes, 2 rotations)
+}
+
 func withSync(c dbh.Config, sync bool) dbh.Config {
 	c.SyncWrites = sync
 	return c
@@ -174,6 +187,15 @@ func Main(o Oracle) {
 		}()
 	}
 	specs := Specs(o, r.Quick())
+	if only := os.Getenv("VERIF_CRASHDB_ONLY"); only != "" { // debugging aid: run the configurations whose name contains the value
+		var keep []*Spec
+		for _, s := range specs {
+			if strings.Contains(s.Name, only) {
+				keep = append(keep, s)
+			}
+		}
+		specs = keep
+	}
 	if r.ReplayPath != "" {
 		replay(r, o, all)
 		return
